@@ -65,7 +65,7 @@ class Planned(Exception):
 def execute(case, choose, cancel_at=None):
     CTX.reset()
     state = {"runs": 0, "started": 0, "inv_since_clear": 0, "started_since_clear": 0, "active": Counter(),
-             "overlap_same_key": 0, "clears_in_flight": 0}
+             "overlap_same_key": 0, "clears_in_flight": 0, "shrink_ok": False, "last_size": 0}
     produced = {}  # run id -> (key, outcome)
     success = {}  # key -> list of values
     viols = []
@@ -112,8 +112,10 @@ def execute(case, choose, cancel_at=None):
                 cached.cache_clear()
                 state["inv_since_clear"] = 0
                 state["started_since_clear"] = 0
+                state["shrink_ok"] = True
             else:
                 cached.cache_discard(op[1])
+                state["shrink_ok"] = True
 
     def monitor(driver, task):
         info = cached.cache_info()
@@ -124,6 +126,14 @@ def execute(case, choose, cancel_at=None):
                           f"after step {driver.steps}: cache_info {tuple(info)} but shadow hits={want_h} misses={want_m}"))
         if case["maxsize"] is not None and info.currsize > case["maxsize"]:
             viols.append(("lru_cache/currsize-exceeds-maxsize", f"after step {driver.steps}: {tuple(info)}"))
+        # stored entries only go away through cache_clear / cache_discard (an insertion into a full cache
+        # replaces one entry by another); a failed or cancelled call in particular removes nothing
+        if info.currsize < state["last_size"] and not state["shrink_ok"]:
+            viols.append(("lru_cache/entry-lost-without-clear-or-discard",
+                          f"step {driver.steps} of {task.name}: currsize went {state['last_size']} -> {info.currsize} "
+                          f"although no cache_clear/cache_discard ran in that step"))
+        state["last_size"] = info.currsize
+        state["shrink_ok"] = False
 
     driver = Driver(choose, after_step=monitor)
     tasks = [driver.spawn(f"t{t}", worker(t, ops), cancel_at=cancel_at if t == case.get("cancel_task") else None)
